@@ -21,7 +21,6 @@ Definition policy_of (k : int) (n : Z) : option policy :=
   | 8 => Some PNone | 9 => Some PNoCache | 10 => Some PExpiresInvalid
   | 11 => Some PMalformed | 12 => Some (PBadDate n)
   | 13 => Some (PNoStoreMaxAge n) | 14 => Some (PMustRevalidate n) | 15 => Some (PNoCacheMaxAge n)
-  | 16 => Some (PRaw n)
   | _ => None
   end%Z.
 
@@ -33,13 +32,17 @@ Definition policy_code (p : policy) : Z * Z :=
   | PNone => (8, 0) | PNoCache => (9, 0) | PExpiresInvalid => (10, 0)
   | PMalformed => (11, 0) | PBadDate n => (12, n)
   | PNoStoreMaxAge n => (13, n) | PMustRevalidate n => (14, n) | PNoCacheMaxAge n => (15, n)
-  | PRaw n => (16, n)
+  | PRaw _ => (16, 0)
   end%Z.
 
 Definition policy_eqb (a b : policy) : bool :=
-  let '(ka, na) := policy_code a in
-  let '(kb, nb) := policy_code b in
-  Z.eqb ka kb && Z.eqb na nb.
+  match a, b with
+  | PRaw x, PRaw y => list_eqb (list_eqb Z.eqb) x y
+  | _, _ =>
+      let '(ka, na) := policy_code a in
+      let '(kb, nb) := policy_code b in
+      Z.eqb ka kb && Z.eqb na nb
+  end.
 
 (* ---- the recorded cachecontrol table ---- *)
 (* CCE kind neg n store has_lifetime lneg l nocache : for the header set (kind, +-n)
@@ -51,19 +54,26 @@ Definition policy_eqb (a b : policy) : bool :=
    it forbids storing (no-store / private), demands revalidation (no-cache), has no
    freshness information — written by the harness's own header parser, used only to check the
    assumption `cc_respects_headers` on header sets the model knows by number only (PRaw) *)
-Inductive ccentry := CCE (pk : int) (neg : bool) (n : int) (store : bool)
-                         (haslt : bool) (lneg : bool) (l : int) (nocache : bool)
-                         (sf sr sn : bool).
+Inductive ccentry :=
+| CCE (pk : int) (neg : bool) (n : int) (store : bool)
+      (haslt : bool) (lneg : bool) (l : int) (nocache : bool) (sf sr sn : bool)
+| CCT (text : list int) (store : bool)          (* a row for ONE Cache-Control line given as text: the *)
+      (haslt : bool) (lneg : bool) (l : int) (nocache : bool) (sf sr sn : bool).
+                                                (* comma-joined original lines `text` *)
+
+Definition entry_policy (e : ccentry) : option policy :=
+  match e with
+  | CCE pk neg n _ _ _ _ _ _ _ _ => policy_of pk (zs neg n)
+  | CCT text _ _ _ _ _ _ _ _ => Some (PRaw [map zi text])
+  end.
 
 Definition cc_of_table (tab : list ccentry) (p : policy) : option ccdec :=
-  match find (fun e => match e with
-                       | CCE pk neg n _ _ _ _ _ _ _ _ =>
-                           match policy_of pk (zs neg n) with
-                           | Some q => policy_eqb p q
-                           | None => false
-                           end
+  match find (fun e => match entry_policy e with
+                       | Some q => policy_eqb p q
+                       | None => false
                        end) tab with
-  | Some (CCE _ _ _ store haslt lneg l nocache _ _ _) =>
+  | Some (CCE _ _ _ store haslt lneg l nocache _ _ _)
+  | Some (CCT _ store haslt lneg l nocache _ _ _) =>
       Some (store, (if haslt then Some (zs lneg l) else None), nocache)
   | None => None
   end.
@@ -78,8 +88,9 @@ Definition no_freshness_b (p : policy) : bool :=
 
 Definition cc_table_respects_headers (tab : list ccentry) : bool :=
   forallb (fun e => match e with
-                    | CCE pk neg n store haslt _ _ nocache sf sr sn =>
-                        match policy_of pk (zs neg n) with
+                    | CCE _ _ _ store haslt _ _ nocache sf sr sn
+                    | CCT _ store haslt _ _ nocache sf sr sn =>
+                        match entry_policy e with
                         | Some p => (if forbids_b p || sf then negb store else true) &&
                                     (if revalidate_b p || sr then nocache else true) &&
                                     (if no_freshness_b p || sn then negb haslt else true)
@@ -96,6 +107,8 @@ Inductive rop :=
        type of the response WITHOUT its parameters (mime.ParseMediaType, fix 04a0982) matches
        ^application/(\w*\+)?json$ — then loadDocumentFromHTTP does not follow the link and parses the
        body: for the model this is a response without alternate link *)
+| RServeRaw (u : string) (code : int) (json : bool) (v : int) (h : list (list int))
+    (* a response whose Cache-Control header LINES are h (one singleton text per line) *)
 | RDown (u : string)                 (* transport failure from now on *)
 | RLoad (u : string)
 | RTick (dt : int).
@@ -113,6 +126,9 @@ Definition op_of (r : rop) : option op :=
                                        (if jsonct then None else Some target)))
       | None => None
       end
+  | RServeRaw u code json v h =>
+      Some (Serve u (RResp (zi code) (if json then BJson (zi v) else BGarbage)
+                           (PRaw (map (map zi) h)) None))
   | RDown u => Some (Serve u RTransport)
   | RLoad u => Some (Load u)
   | RTick dt => Some (Tick (Z.to_N (zi dt)))
@@ -181,7 +197,7 @@ Definition table_complete (cctab : list ccentry) (r : rcfg) (ops : list op) : bo
                                     | None => true
                                     end
                         | Serve _ (RResp _ _ p alt) =>
-                            match cc_of_table cctab p with Some _ => true | None => false end &&
+                            match cc_of_table cctab (lib_view p) with Some _ => true | None => false end &&
                             match alt with
                             | Some t => match http_key cli gw t with
                                         | Some k => match lookup_s k tab with Some _ => true | None => false end
